@@ -1,5 +1,7 @@
 import ALV.Common.Json
 import ALV.Model.C18
+import ALV.Model.C18Res
+import ALV.Model.C18Riff
 import ALV.Spec.C18
 namespace ALV.Driver.C18
 open ALV ALV.J ALV.C18
@@ -11,9 +13,15 @@ def orderOf (j : Json) : Except String (Option Order) :=
   | Json.str ">" => pure (some .big)
   | _ => throw s!"bad byte order {j.compress}"
 
-def fmtOf (s : String) : Except String Fmt :=
+/-- (format of the struct strategy, format of the array strategy): they differ for l / L under a
+    standard-size prefix (4 bytes for struct, the machine's `long` in an array) -/
+def fmtOf (s : String) (std : Bool) (long : Nat) : Except String (Fmt × Fmt) :=
   match s with
-  | "b" => pure .b | "h" => pure .h | "i" => pure .i | "f" => pure .f | "d" => pure .d
+  | "b" => pure (.b, .b) | "h" => pure (.h, .h) | "i" => pure (.i, .i) | "f" => pure (.f, .f) | "d" => pure (.d, .d)
+  | "B" => pure (.u 1, .u 1) | "H" => pure (.u 2, .u 2) | "I" => pure (.u 4, .u 4)
+  | "q" => pure (.s 8, .s 8) | "Q" => pure (.u 8, .u 8)
+  | "l" => pure (.s (if std then 4 else long), .s long)
+  | "L" => pure (.u (if std then 4 else long), .u long)
   | _ => throw s!"bad format {s}"
 
 /-- Python number: JSON integer = int, `{"f": bits}` = the double with that bit pattern -/
@@ -21,8 +29,12 @@ def pval (j : Json) : Except String PVal :=
   match j with
   | Json.int n => pure (.int n)
   | Json.obj _ => do
-    let b ← getNat (← field j "f")
-    pure (.flt (Float.ofBits (UInt64.ofNat b)))
+    match optField j "b" with
+    | some bj => pure (.bool (← getBool bj))
+    | none =>
+      let b ← getNat (← field j "f")
+      let x := Float.ofBits (UInt64.ofNat b)
+      pure (if (optField j "q").isSome then .frac x else .flt x)
   | _ => throw s!"bad value {j.compress}"
 
 def bytesJson (b : Bytes) : Json := arr (fun (x : UInt8) => Json.int x.toNat) b
@@ -53,11 +65,89 @@ def kindOf : List (Sample Rat) → String
   | .raw _ :: _ => "int"
   | .scaled _ :: _ => "float"
 
+def handleJson (h : Handle) : Json :=
+  Json.mkObj [("owner", Json.str (match h.owner with | .stream => "stream" | .caller => "caller")),
+    ("open", Json.bool h.isOpen), ("closes", natToJson h.closeCalls), ("abandoned", Json.bool h.abandoned)]
+
+def obsJson : Option (Obs (Sample Rat) WavErr) → Json
+  | none => Json.null
+  | some (.item b) => Json.mkObj [("item", sampleJson b)]
+  | some .stop => Json.str "stop"
+  | some (.raised e) => Json.str (wavErr e)
+
+def openErr : OpenErr → String
+  | .eof => "OTHER:EOFError" | .waveError => "wave.Error" | .runtime => "RuntimeError"
+
+/-- the wave file of a request: parsed by the Lean RIFF reader from the bytes of the whole file
+    (`file`), or given by its header fields and data chunk -/
+def wavFileOf (j : Json) : Except String (Except OpenErr WavFile) := do
+  match optField j "file" with
+  | some fj => pure (parseRiff (← getBytes fj))
+  | none =>
+    let bits ← getNat (← field j "bits")
+    let channels ← getNat (← field j "channels")
+    let rate ← getNat (← field j "rate")
+    let data ← getBytes (← field j "data")
+    pure (.ok ⟨channels, headerSampwidth bits, rate, data⟩)
+
+def sourceOf (s : String) : Except String Source :=
+  match s with
+  | "name" => pure .name | "fileobj" => pure .fileObj | "memory" => pure .memory
+  | "refused" => pure .refusedName
+  | _ => throw s!"bad source {s}"
+
+def evOf (s : String) : Except String Ev :=
+  match s with
+  | "n" => pure .next | "c" => pure .collect
+  | _ => throw s!"bad event {s}"
+
+/-- the life-cycle machine for one way of handing the file over -/
+def resRun (j : Json) (src : Source) : Except String Json := do
+  let keep ← getBool (← field j "keep")
+  let hok0 ← getBool (← field j "header_ok")
+  let npre ← getNat (← field j "pre")
+  let evs ← getList (fun e => do evOf (← getStr e)) (← field j "events")
+  let pf ← wavFileOf j
+  let (hok, f, perr) := match pf with
+    | .ok f => (hok0, f, "")
+    | .error e => (false, (⟨1, 1, 1, []⟩ : WavFile), openErr e)
+  let o : WavObs Rat := wavStream f keep
+  let g := o.gen
+  let early := decide (g.err = some WavErr.noUnpacker)
+  let pre := List.replicate npre (Handle.fresh .caller)
+  match construct src hok pre with
+  | .error hs => pure <| Json.mkObj [("open", Json.str "error"), ("handles", arr handleJson hs),
+      ("parse_err", Json.str perr)]
+  | .ok s0 =>
+    let tr := rTrace g early evs s0
+    let k := (evs.filter (· == Ev.next)).length
+    pure <| Json.mkObj [("open", Json.str "ok"), ("early", Json.bool early),
+      ("handles", arr handleJson s0.handles), ("fp", Json.bool s0.wr.fp),
+      ("trace", arr (fun (p : Option (Obs (Sample Rat) WavErr) × RS) =>
+          Json.mkObj [("obs", obsJson p.1), ("fp", Json.bool p.2.wr.fp), ("handles", arr handleJson p.2.handles)]) tr),
+      -- the closed form of theorem res_next_values, for histories made of next() calls only
+      ("expect", if evs.all (· == Ev.next) then arr (fun x => obsJson (some x)) (expectObs g k) else Json.null),
+      ("kind", Json.str (kindOf g.out)),
+      ("hdr", Json.mkObj [("rate", natToJson o.rate), ("channels", natToJson o.channels), ("bits", natToJson o.bits)])]
+
+/-- `res`: the file life-cycle machine run over the value model's own `Gen`; `alt_source` asks for a
+    second prediction (a name kind the code may accept or refuse: both answers are given) -/
+def handleRes (j : Json) : Except String Json := do
+  let src ← sourceOf (← getStr (← field j "source"))
+  let main ← resRun j src
+  match optField j "alt_source" with
+  | none => pure main
+  | some a => do
+    let alt ← resRun j (← sourceOf (← getStr a))
+    pure <| Json.mkObj [("main", main), ("alt", alt)]
+
 /-- one generator alone: the chunk generators of one `chunks(...)` call, or one `WavStream` -/
 def handle1 (entry : String) (j : Json) : Except String Json := do
   match entry with
   | "chunks" =>
-    let fmt ← fmtOf (← getStr (← field j "fmt"))
+    let std ← getBool (fieldD j "std" (Json.bool false))
+    let long ← getNat (fieldD j "long" (Json.int 8))
+    let (fmt, afmt) ← fmtOf (← getStr (← field j "fmt")) std long
     let native ← orderOf (← field j "native")
     let native ← match native with | some o => pure o | none => throw "native order required"
     let order := resolveOrder native (← orderOf (fieldD j "order" Json.null))
@@ -66,20 +156,22 @@ def handle1 (entry : String) (j : Json) : Except String Json := do
     let pad ← pval (← field j "pad")
     let xs ← getList pval (← field j "xs")
     let s := chunksStruct order (leElem true fmt) size pad xs
-    let a := chunksArray native order (leElem false fmt) (.int 0) size pad xs
+    let a := chunksArray native order (leElem false afmt) (.int 0) size pad xs
     let sp := chunksSpec (encOrder order (leElem true fmt)) size pad xs
-    let spa := chunksSpec (encOrder order (leElem false fmt)) size pad xs
+    let spa := chunksSpec (encOrder order (leElem false afmt)) size pad xs
     pure <| Json.mkObj [
       ("struct", genJson structErr s), ("array", genJson arrayErr a),
       ("spec", genJson absErr sp), ("spec_array", genJson absErr spa),
-      ("width", natToJson fmt.width), ("padlen", natToJson (padLen size xs.length))]
+      ("width", natToJson fmt.width), ("awidth", natToJson afmt.width), ("padlen", natToJson (padLen size xs.length))]
   | "wav" =>
     let bits ← getNat (← field j "bits")
-    let channels ← getNat (← field j "channels")
-    let rate ← getNat (← field j "rate")
     let keep ← getBool (← field j "keep")
-    let data ← getBytes (← field j "data")
-    let f : WavFile := ⟨channels, bits / 8, rate, data⟩
+    let pf ← wavFileOf j
+    match pf with
+    | .error e => pure <| Json.mkObj [("open_err", Json.str (openErr e))]
+    | .ok f =>
+    let channels := f.channels
+    let data := f.data
     let o : WavObs Rat := wavStream f keep
     let base := [
       ("model", Json.mkObj [("out", arr sampleJson o.gen.out),
@@ -96,7 +188,7 @@ def handle1 (entry : String) (j : Json) : Except String Json := do
                 ("enc", bytesJson (pcmData bits samples))])]
     let w := bits / 8
     let anyPart :=
-      if (channels = 1 ∨ channels = 2) ∧ w ≠ 0 ∧ data.length % (w * channels) = 0 then
+      if (channels = 1 ∨ channels = 2) ∧ bits % 8 = 0 ∧ w ≠ 0 ∧ data.length % (w * channels) = 0 then
         let sp : List (Sample Rat) := wavSpec bits keep ((splitEvery w data).map (storedValue bits))
         [("spec_any", Json.mkObj [("out", arr sampleJson sp), ("kind", Json.str (kindOf sp))])]
       else []
@@ -110,6 +202,7 @@ def handle1 (entry : String) (j : Json) : Except String Json := do
         pure [("lazy", Json.mkObj [("taken", natToJson r.1.length), ("closed", Json.bool r.2.closed),
                 ("spec_taken", natToJson (min k n)), ("spec_closed", Json.bool (closedAfter n k))])]
     pure <| Json.mkObj (base ++ specPart ++ anyPart ++ lazyPart)
+  | "res" => handleRes j
   | _ => throw s!"C18: unknown entry {entry}"
 
 /-- `conc`: several generators alive at once.  The model has no shared state: every generator is
